@@ -1717,6 +1717,15 @@ class Engine:
                 it = iter(vals[1:])
                 lo = next(it) if sl.lower is not None else None
                 hi = next(it) if sl.upper is not None else None
+                if isinstance(o, str) or (is_z3(o) and o.sort() == z3.StringSort()):
+                    # string slices s[a:], s[:b], s[a:b] with non-negative bounds
+                    zs = lift(o)
+                    zlo = lift(lo) if lo is not None else z3.IntVal(0)
+                    zhi = lift(hi) if hi is not None else z3.Length(zs)
+                    if (isinstance(lo, int) and lo < 0) or (isinstance(hi, int) and hi < 0):
+                        raise Unsupported("negative string slice bound")
+                    out.append((s, z3.SubString(zs, zlo, zhi - zlo), None))
+                    continue
                 seq = self.as_seq(s, o)
                 if seq.items is not None and not is_z3(lo) and not is_z3(hi):
                     out.append((s, self.new_list(s, SeqV.concrete(seq.items[lo:hi])), None))
